@@ -121,9 +121,11 @@ def coin(rng, r):
 
 def pred_ok(kind, o):
     """generator-side copy of Model.acceptable (only used to aim coins)"""
-    base, p = kind % 4, kind // 4
-    if o >= 3:
+    base, p = kind % 4, (kind // 4) % 4
+    if o in (3, 4):
         return False
+    if o == 5:
+        o = 2          # ErrServiceUnavailable of an inner breaker: an ordinary error for this breaker's predicate
     if base in (0, 2):
         return o == 0
     return {0: o in (0, 1), 1: o == 1, 2: True, 3: False}[p]
@@ -147,6 +149,8 @@ def gen_history(rng):
             kind = rng.randrange(4)
             if kind in (1, 3) and rng.random() < 0.6:
                 kind += 4 * rng.randint(1, 3)      # caller predicate: 1 rejects nil, 2 accepts every error, 3 accepts nothing
+            if rng.random() < 0.35:
+                kind += 16                          # through the package-level Do*(name, ...) of the registry
             r = sim.ratio(n, now)
             m = coin(rng, r)
             evs.append([0, n, nid, kind, m])
@@ -157,9 +161,9 @@ def gen_history(rng):
             i = rng.choice(sorted(running))
             n, kind = running.pop(i)
             if bad[n]:
-                o = rng.choice([2, 2, 2, 2, 3, 4, 1, 0])
+                o = rng.choice([2, 2, 2, 5, 5, 3, 4, 1, 0])
             else:
-                o = rng.choice([0, 0, 0, 0, 0, 1, 1, 2, 2, 3, 4])
+                o = rng.choice([0, 0, 0, 0, 0, 0, 1, 1, 2, 2, 5, 5, 3, 4])
             evs.append([1, i, o])
             ok = pred_ok(kind, o)
             sim.mark(n, now, 1 if ok else 0)
@@ -210,6 +214,8 @@ def pred_cases(rng, tier):
     # sqlx call sites (7 methods x error classes through the public breaker of a commonConn) and redis call sites
     for site in range(7):
         out += [{"kind": "p", "which": 7, "arg": site * 1000 + cl, "site": site, "cl": cl} for cl in (1, 2, 3, 5)]
+    for site in (7, 8):      # TransactCtx / Transact: 300 transactions whose BODY returns the class (rollback succeeds), then Exec
+        out += [{"kind": "p", "which": 7, "arg": site * 1000 + cl, "site": site, "cl": cl} for cl in (0, 1, 2, 3, 5)]
     s0 = rng.randrange(7)
     out += [{"kind": "p", "which": 7, "arg": s0 * 1000 + 100 + cl, "site": s0, "cl": cl, "mysql": True} for cl in (8, 9, 3)]
     for site in range(7):
@@ -332,6 +338,11 @@ def mixed_cases(rng, tier):
         fixed.append({"kind": "m", "side": side, "timeout": 0 if side == 3 else 3000,
                       "calls": [[0, 200, 0]] * rng.randint(0, 4) + [[4 + (i % 2), 0, 0] for i in range(120)]})
         fixed.append(gen_engine(rng, side))
+    # the composed client chain of rpc/internal/client.go over a real transport: a backend overrunning the client timeout
+    fixed.append({"kind": "m", "side": 5, "timeout": 5,
+                  "calls": [[0, 0, 0]] * rng.randint(0, 3) + [[6, 0, 0]] * 75 + [[0, 0, 0]] * 5})
+    fixed.append({"kind": "m", "side": 5, "timeout": rng.choice([5, 8]),
+                  "calls": [rng.choice([[0, 0, 0], [0, 5, 0], [0, 16, 0], [6, 0, 0], [0, 14, 0]]) for _ in range(rng.randint(40, 80))]})
     return fixed + [gen_mixed(rng, i % 3) for i in range(k)]
 
 
@@ -363,8 +374,9 @@ def drive(cases, tier):
     logs = []
     groups = [("b", None, "./lib/breaker"), ("h", None, "./api/handler")] + [("p", w, PKG[w]) for w in sorted(PKG)]
     groups.append(("r", None, "./lib/breaker"))
-    groups += [("m", 0, "./rpc/internal/clientinterceptors"), ("m", 1, "./rpc/internal/serverinterceptors"), ("m", 3, "./api")]
-    mgroup = {0: 0, 1: 1, 2: 1, 3: 3, 4: 3}
+    groups += [("m", 0, "./rpc/internal/clientinterceptors"), ("m", 1, "./rpc/internal/serverinterceptors"), ("m", 3, "./api"),
+               ("m", 5, "./rpc/internal")]
+    mgroup = {0: 0, 1: 1, 2: 1, 3: 3, 4: 3, 5: 5}
     for kind, which, pkg in groups:
         if kind == "m":
             idx = [i for i, c in enumerate(cases) if c["kind"] == "m" and mgroup[c["side"]] == which]
@@ -374,7 +386,7 @@ def drive(cases, tier):
             continue
         # the sqlx / redis / api-handler packages also hold other properties' drivers: ours is TestVerifDriverC01 there
         run = "^TestVerifDriverC01$" if pkg in ("./lib/store/sqlx", "./lib/store/redis", "./api/handler",
-                                               "./rpc/internal/serverinterceptors", "./rpc/internal/clientinterceptors", "./api") else "^TestVerifDriver$"
+                                               "./rpc/internal/serverinterceptors", "./rpc/internal/clientinterceptors", "./api", "./rpc/internal") else "^TestVerifDriver$"
         if kind == "r":
             run = "^TestVerifDriverReg$"
         o, lg = run_driver(pkg, [wire(cases[i]) for i in idx], name="C01%s%s_%s" % (kind, "" if which is None else which, tier),
@@ -391,20 +403,23 @@ PRED = ["PNilOrAcc", "PRejectsNil", "PAll", "PNone"]
 
 
 def ckind(k):
-    base, p = k % 4, k // 4
+    base, p = k % 4, (k // 4) % 4      # bit 16 (registry-level Do*) is the same breaker for the model
     if p == 0 or base in (0, 2):
         return ["KDo", "KDoWithAcceptable", "KDoWithFallback", "KDoWithFallbackAcceptable"][base]
     return "(%s %s)" % ("KDoWithAcceptableP" if base == 1 else "KDoWithFallbackAcceptableP", PRED[p])
 
 
 KIND = ["KDo", "KDoWithAcceptable", "KDoWithFallback", "KDoWithFallbackAcceptable"]
-OUT = ["OK", "AcceptableErr", "UnacceptableErr", "Panics", "PanicsNil"]
+OUT = ["OK", "AcceptableErr", "UnacceptableErr", "Panics", "PanicsNil", "InnerUnavailable"]
 
 
 def encode(case, obs):
     if case["kind"] == "m":
         calls = [cpair(cnat(c[0]), cZ(c[1]), cnat(c[2])) for c in case["calls"]]
-        if case["side"] >= 3:
+        if case["side"] == 5:
+            rows = obs.get("rows", [])
+            rej, st = [r[0] == 1 for r in rows], [r[1] for r in rows]
+        elif case["side"] >= 3:
             rows = obs.get("rows", [])
             rej, st = [r[1] == 0 for r in rows], [r[0] for r in rows]
         else:
@@ -451,7 +466,7 @@ def nontrivial(case, obs):
 
 def bucket(case, obs):
     if case["kind"] == "m":
-        rej = obs.get("rej") or [1 - r[1] for r in obs.get("rows", [])]
+        rej = obs.get("rej") or [(r[0] if case["side"] == 5 else 1 - r[1]) for r in obs.get("rows", [])]
         out = ["kind:m", "m:side=%d" % case["side"], "m:cutoff=%s" % any(rej), "m:names=%d" % len({c[2] for c in case["calls"]})]
         out += sorted({"m:class=%d" % c[0] for c in case["calls"]})
         return out
@@ -467,8 +482,10 @@ def bucket(case, obs):
     for r in obs.get("rows", []):
         out.append("code:%d" % r[0])
     for e in case["events"]:
-        if e[0] == 0 and e[3] >= 4:
-            out.append("pred:%s" % PRED[e[3] // 4])
+        if e[0] == 0 and (e[3] // 4) % 4 >= 1:
+            out.append("pred:%s" % PRED[(e[3] // 4) % 4])
+        if e[0] == 0 and e[3] >= 16:
+            out.append("via:registry-Do")
     return out
 
 
